@@ -17,6 +17,13 @@ An `ast` pass (nothing is imported or executed) writes lean/Generated/LdmShape.l
   `del`, augmented assignment or a mutating container method on it.  The in-memory back-end hands out the stored
   objects themselves, so such a store rewrites the store outside the database lock and every response that already
   contains the object.  Expected: none.
+* `userCalls : List (String × List String)` - every invocation of USER-SUPPLIED code (a consumer callback: a call whose
+  callee is `<expr>.callback(…)` / `callback(…)` / any name or attribute containing "callback" that is not a method of
+  an LDM class, or a local bound to one) with the `with self.<lock>` sections that lexically enclose it, outermost first.  User code may block
+  on anything - in particular on another application thread that is itself calling the LDM - so it must run with no
+  LDM lock held (`LdmConc.callbacks_outside_locks`; the call chain down to it is checked against the call graph of
+  Generated/Locks.lean in `LdmConc.notification_chain_unlocked`).  Expected: one call, in
+  `LDMService.process_notifications`, outside every section.
 """
 from __future__ import annotations
 
@@ -197,6 +204,68 @@ class InPlace(ast.NodeVisitor):
                 self.hits.append(f"{f.attr}() on {base.id}")
 
 
+class UserCalls(ast.NodeVisitor):
+    """invocations of user-supplied callables with the lexically enclosing `with self.<lock>` sections"""
+
+    def __init__(self, lock_attrs, own_methods):
+        self.lock_attrs, self.own, self.stack, self.hits = lock_attrs, own_methods, [], []
+        self.aliases = set()          # locals bound to a user callable (`notify = subscription.callback`)
+
+    @staticmethod
+    def _names_callback(e):
+        name = e.attr if isinstance(e, ast.Attribute) else e.id if isinstance(e, ast.Name) else None
+        return name is not None and "callback" in name.lower()
+
+    def visit_Assign(self, node):
+        self.generic_visit(node)
+        if self._names_callback(node.value) or (isinstance(node.value, ast.Name) and node.value.id in self.aliases):
+            for t in node.targets:
+                if isinstance(t, ast.Name):
+                    self.aliases.add(t.id)
+
+    def visit_With(self, node):
+        opened = 0
+        for it in node.items:
+            a = gen_locks._self_attr(it.context_expr)
+            if a is not None and a in self.lock_attrs:
+                self.stack.append(a)
+                opened += 1
+            else:
+                self.visit(it.context_expr)
+        for st in node.body:
+            self.visit(st)
+        for _ in range(opened):
+            self.stack.pop()
+
+    def visit_Call(self, node):
+        f = node.func
+        name = f.attr if isinstance(f, ast.Attribute) else f.id if isinstance(f, ast.Name) else None
+        if name is not None and ("callback" in name.lower() or (isinstance(f, ast.Name) and name in self.aliases)):
+            root = _recv_root(f.value)[0] if isinstance(f, ast.Attribute) else None
+            own = isinstance(f, ast.Attribute) and root is not None and isinstance(f.value, (ast.Name, ast.Call)) and name in self.own
+            if not own:
+                self.hits.append(list(self.stack))
+        self.generic_visit(node)
+
+
+def user_calls():
+    classes = gen_locks.parse_all()
+    lock_attrs = {a for ci in classes.values() for a in ci.locks}
+    own = {m for ci in classes.values() for m in ci.methods}
+    out = []
+    for rel in FILES:
+        for n in ast.parse(src(rel)).body:
+            if not isinstance(n, ast.ClassDef):
+                continue
+            for m in n.body:
+                if isinstance(m, (ast.FunctionDef, ast.AsyncFunctionDef)):
+                    uc = UserCalls(lock_attrs, own)
+                    for st in m.body:
+                        uc.visit(st)
+                    out += [(f"{n.name}_{m.name}", st_) for st_ in uc.hits]
+    return sorted(out)
+
+
 def analyse():
     locking = locking_methods()
     classes = {}
@@ -250,6 +319,9 @@ def gen_ldm_shape():
     o.append(f"def inplace : List String := {_strs(inplace)}\n")
     o.append("/-- explicit lock.acquire()/release() calls (invisible to the `with`-based lock map; expected: none) -/\n")
     o.append(f"def explicitLockCalls : List String := {_strs(explicit_lock_calls())}\n")
+    o.append("/-- invocations of user-supplied code (consumer callbacks): (method, enclosing `with self.<lock>` sections) -/\n")
+    o.append("def userCalls : List (String × List String) := ["
+             + ", ".join(f'("{fn}", {_strs(st)})' for fn, st in user_calls()) + "]\n")
     o.append("end Generated.LdmShape\n")
     write_if_changed("LdmShape.lean", "".join(o))
 
@@ -259,3 +331,4 @@ if __name__ == "__main__":
     for k in sorted(sk):
         print(k, sk[k])
     print("inplace", ip)
+    print("userCalls", user_calls())
